@@ -70,6 +70,13 @@ def run_one(name, seed, tier, cpv_jobs, replay_check=False):
         shutil.rmtree(tmp, ignore_errors=True)
 
 
+def _dump(results, args):
+    suffix = "" if not (args.only or args.names) else "_partial"
+    with open(os.path.join(VERIF, "seeded", f"RECHECK_seed{args.seed}_{args.tier}{suffix}.json"), "w") as f:
+        json.dump({k: results[k] for k in sorted(results)}, f, indent=1)
+        f.write("\n")
+
+
 def main():
     ap = argparse.ArgumentParser()
     ap.add_argument("--seed", default="1")
@@ -104,10 +111,9 @@ def main():
                 if c["exit"] != 1:
                     missed.append(f"{n}/{p}")
             print(n, r.get("error", ""), " ".join(tags), flush=True)
-    suffix = "" if not (args.only or args.names) else "_partial"
-    with open(os.path.join(VERIF, "seeded", f"RECHECK_seed{args.seed}_{args.tier}{suffix}.json"), "w") as f:
-        json.dump({k: results[k] for k in sorted(results)}, f, indent=1)
-        f.write("\n")
+            if len(results) % 10 == 0:
+                _dump(results, args)
+    _dump(results, args)
     print(f"{len(names)} seeds, not caught: {missed}")
     return 1 if missed else 0
 
